@@ -110,7 +110,7 @@ def run(run, P):
         n += 1
         run.instance('R-BODY-COMPLETE', '%s: %d delivery statement(s), More bit in %d descriptor(s)%s' % (name, len(delivers), len(mvars), '' if hasflag else ' (no %s test at all)' % FLAG))
         solve(f, Env(), on_event, None, keys, R, key_fn=lambda e: (e.ts.get('last_seen'), tuple(e.intf(m)[:2] for m in sorted(mvars)), tuple(e.intf(o)[:2] for o in sorted(optvars))), on_branch=on_branch)
-    run.require(n >= 1 or run.fixture_mode or run.cfg != 'base', 'R-BODY-COMPLETE: no function that hands a reassembled body to the application found')
+    run.require_count(n >= 1 or run.fixture_mode or run.cfg != 'base', 'R-BODY-COMPLETE: no function that hands a reassembled body to the application found')
 
 
 def run_token_restore(run, P):
@@ -178,4 +178,63 @@ def run_token_restore(run, P):
                                   'back into the received PDU nor compared the two tokens: the response handler sees the token the library made up for a later block', ctx.path())
             return None
         solve(f, Env(), on_event, None, keys, R, key_fn=lambda e: (e.ts.get('tok'), bool(e.ts.get('expired'))), on_branch=on_branch)
-    run.require(n >= 1 or run.fixture_mode or run.cfg != 'base', 'R-BODY-COMPLETE(application token): no response handler that expires a transfer record found')
+    run.require_count(n >= 1 or run.fixture_mode or run.cfg != 'base', 'R-BODY-COMPLETE(application token): no response handler that expires a transfer record found')
+
+
+def run_crcv_complement(run, P, creator='coap_block_new_lg_crcv'):
+    """R-BODY-COMPLETE (a receive record exists when the body starts): the client-side record that re-assembles a block-wise response
+    (lg_crcv) is made either when the request is sent -- if a predicate over the request says it will be needed -- or, as an economy,
+    later: when the request is acknowledged by an Empty ACK, i.e. the response will come separately and `sent` is about to be forgotten.
+    The two sites split the requests between them with ONE predicate, so they test it with opposite polarity: computed are the library
+    functions that call the creator under a condition that calls a predicate function (an int function of the library that takes the
+    session); for each predicate that guards creator calls in two functions, both polarities occur.  With the same polarity at both
+    sites the requests for which the predicate is false get no record at all: a separate block-wise response finds neither `sent` nor a
+    record, is acknowledged and dropped -- the application gets no body, no error and no NACK."""
+    from core.prog import transitive_control_deps
+    run.rule('R-BODY-COMPLETE')
+    uses = {}
+    for f in sorted(P.lib_funcs(), key=lambda f: f['name']):
+        B = f['B']
+        for b in f['blocks']:
+            for ev in b['elems']:
+                found = [x for x in walk(ev['e']) if isinstance(x, dict) and x.get('k') == 'call' and x.get('fn') == creator]
+                if not found or not ev.get('top', True):
+                    continue
+                for (c, idx) in transitive_control_deps(f, b['id']):
+                    cond = strip((B[c].get('term') or {}).get('cond'))
+                    pol = idx == 0
+                    while isinstance(cond, dict) and cond.get('k') == 'un' and cond.get('op') == '!':
+                        cond = strip(cond['e'])
+                        pol = not pol
+                    if isinstance(cond, dict) and cond.get('k') == 'call' and cond.get('fn') and P.has(cond['fn']) and cond['fn'] != creator and \
+                       any(isinstance(strip(a), dict) and strip(a).get('prec') == 'coap_session_t' for a in cond.get('a') or ()):
+                        uses.setdefault(cond['fn'], {}).setdefault(f['name'], set()).add((pol, ev['loc']))
+    n = 0
+    ncalls = {}
+    for f in P.lib_funcs():
+        for b in f['blocks']:
+            nodes = [ev['e'] for ev in b['elems'] if ev.get('top', True)] + ([b['term']['cond']] if (b.get('term') or {}).get('cond') is not None else [])
+            for t in nodes:
+                for x in walk(t):
+                    if isinstance(x, dict) and x.get('k') == 'call' and x.get('fn') in uses:
+                        ncalls.setdefault(x['fn'], set()).add((f['name'], b['id'], short(x)))
+    for pred, by_fn in sorted(uses.items()):
+        if len(by_fn) < 2:
+            continue
+        # a predicate that exists for this decision: it is called nowhere but at the sites that guard the creation (general validity checks,
+        # which hold at every site alike, are called all over the library)
+        if len(set(fn for fn, _b, _s in ncalls.get(pred, ()))) != len(by_fn):
+            continue
+        n += 1
+        pols = set(p for s_ in by_fn.values() for p, _l in s_)
+        run.instance('R-BODY-COMPLETE', '%s() splits the creation of the receive record between %s with opposite polarity' % (pred, ' and '.join(sorted(by_fn))))
+        ok = pols == {True, False}
+        run.oblige('R-BODY-COMPLETE', ok, '%s:complementary-sites' % pred)
+        if not ok:
+            fn = sorted(by_fn)[-1]
+            loc = sorted(by_fn[fn])[0][1]
+            run.violation('R-BODY-COMPLETE', fn, loc, 'receive-record-sites-not-complementary:%s' % pred,
+                          'every site that creates the receive record does so when %s() says %s: the requests for which it says %s get no record at send time and none when '
+                          'the Empty ACK arrives -- their separate block-wise response is acknowledged and dropped' %
+                          (pred, 'yes' if True in pols else 'no', 'no' if True in pols else 'yes'), [])
+    run.require_count(n >= 1 or run.fixture_mode or run.cfg != 'base', 'R-BODY-COMPLETE(record exists): no predicate that guards %s() in two functions found' % creator)
